@@ -64,6 +64,9 @@ pub fn inspect(ctx: &mut Ctx, blob: &[u8], punctured: &BTreeSet<u8>, server: &pp
             if reference.is_some() {
                 return Err(Violation::new("c11.ancestor_retained", "reference_evaluates", format!("{}: the exported seeds alone evaluate punctured tag {}", when, x)));
             }
+            if real.is_some() {
+                return Err(Violation::new("c11.punctured_evaluates", "key_holder_evaluates", format!("{}: the key holder itself still evaluates punctured tag {} although the exported state has no node for it: material outside the exported key state survives", when, x)));
+            }
         } else {
             live += 1;
             if real.is_none() {
@@ -155,11 +158,25 @@ impl Property for C11 {
         };
         let mut net = Net::new(NetCfg { drop: 0, dup: 200, replay: 0, misdeliver: 0, corrupt: 0, min_latency_us: 1000, jitter_us: 5000, long_delay: 0, long_delay_us: 0 });
         let mut exports = 0usize;
+        // a same-key instance that lags behind (the previous generation, not told about later punctures)
+        let mut lagging: Option<(pp::Server, BTreeSet<u8>)> = None;
+        let lag_probe = pp::Point::from(ggm_ref::hash_to_group(b"c11 lagging probe"));
         let export_every = 1 + ctx.ch.index(12);
         let mut generation = 0u32;
         for (i, &x) in ord.iter().take(n_punct).enumerate() {
             server.puncture(x).map_err(|e| Violation::new("c11.setup", "puncture", format!("puncture {} failed: {}", x, e)))?;
             punctured.insert(x);
+            if let Some((lag, lp)) = &lagging {
+                if !lp.contains(&x) {
+                    // the lagging instance legitimately still answers for x (it holds the older state) ...
+                    let _ = lag.eval(&lag_probe, x, false);
+                    // ... which must not bring x back for the instance that punctured it
+                    if server.eval(&lag_probe, x, false).is_ok() {
+                        return Err(Violation::new("c11.punctured_evaluates", "revived_by_lagging_instance", format!("tag {} was punctured on the leader, then evaluated on a lagging same-key instance, and the leader evaluates it again: punctured key material survives outside the key (shared state between instances)", x)));
+                    }
+                    ctx.stats.probe("lagging_instance_probes");
+                }
+            }
             let last = i + 1 == n_punct;
             if (i + 1) % export_every == 0 || last || ctx.ch.chance(1, 16) {
                 let when = format!("after {} punctures (last {})", punctured.len(), x);
@@ -182,7 +199,8 @@ impl Property for C11 {
                         let blob2 = bincode::serialize(&importer.get_private_key()).map_err(|e| Violation::new("c11.setup", "export", e.to_string()))?;
                         let st2 = inspect(ctx, &blob2, &punctured, &importer, &format!("importer, {}", when))?;
                         tamper_attack(ctx, &st2, &punctured, &format!("importer, {}", when))?;
-                        server = importer;
+                        let old = std::mem::replace(&mut server, importer);
+                        lagging = Some((old, punctured.clone()));
                         ctx.stats.probe("importer_took_over");
                         ev!(ctx, "importer generation {} took over {}", generation, when);
                     }
